@@ -16,7 +16,18 @@ from .c01 import RailsProp
 
 MODES = [("v1:dialog", 3), ("v1:single_call", 2), ("v1:multistep", 2), ("v1:rails_only", 1), ("v1:passthrough", 1), ("v2:v2_llm", 3)]
 V2_TURNS = ["hi", "hello there", "value please", "paraphrase please", "what is the capital of France", "hello again"]
-SUBRUN_TIMEOUT_S = 6.0
+# "generate never returns" is decided by a deterministic work bound (function entries + jumps counted through
+# sys.monitoring), not by a wall clock: a fault run may use WORK_FACTOR x the work of the scenario's fault-free run,
+# at least WORK_FLOOR and at most WORK_CAP.  Measured on the unchanged tree: fault-free runs need 0.4-3.0 M (the 3.0 M
+# includes first-use imports), the costliest hostile reply (200 kB text) 3.9 x its fault-free run and < 2 M in absolute
+# terms; a run that uses more than a quarter of its budget is counted in the probe `work_over_quarter_budget` so that a
+# thinning margin is seen long before it could alarm.  The endless parser loop of F10a grows a list on every
+# iteration (each iteration slower than the last), which is why the bound cannot be generous: 8 M take ~10 s there.
+# The wall-clock watchdog only backs this up for loops inside C code and has to fire twice in a row for a verdict.
+WORK_FLOOR = 8_000_000
+WORK_FACTOR = 10
+WORK_CAP = 20_000_000
+WALL_BACKSTOP_S = 150.0
 
 
 def innermost_repo_frame(exc):
@@ -37,7 +48,7 @@ class C17(RailsProp):
             "distinct = distinct (mode, task at the position, hostile text name)")
     expected_probes = ["hostile_at_intent_call", "hostile_at_next_steps_call", "hostile_at_bot_message_call", "hostile_at_v2_value_generation", "template_text_survived_literally"]
     exhaustive_parts = ["every LLM call position of every sampled conversation", "the whole hostile corpus per position in the thorough tier"]
-    quick_runs = 32
+    quick_runs = 28
     thorough_runs = 1500
     chunk = 1
     run_timeout_s = 900.0
@@ -77,12 +88,24 @@ class C17(RailsProp):
             if fault is not None:
                 pos, name, text = fault
                 world.llm_world.fault_fn = lambda call: text if call.n == pos else None
-        try:
-            with control.Watchdog(SUBRUN_TIMEOUT_S):
-                world, records = _run(sc, patch, tr)
-            return records, world.llm_world.calls, False
-        except control.RunTimeout:
-            return None, None, True
+        budget = min(WORK_CAP, max(WORK_FLOOR, WORK_FACTOR * getattr(self, "_base_work", 0)))
+        for attempt in (0, 1):
+            try:
+                with control.Watchdog(WALL_BACKSTOP_S):
+                    with control.WorkBudget(budget) as wb:
+                        world, records = _run(sc, patch, Trace(0) if attempt else tr)
+                if fault is None:
+                    self._base_work = wb.n
+                self._last_work = wb.n
+                if fault is not None and wb.n > budget // 4:
+                    self._tight = getattr(self, "_tight", 0) + 1
+                return records, world.llm_world.calls, False
+            except control.StepBudgetExceeded:
+                self._hang_kind = "work budget of %d function entries + jumps exceeded" % budget
+                break
+            except control.RunTimeout:
+                self._hang_kind = "wall-clock backstop of %.0f s fired twice (loop outside Python code)" % WALL_BACKSTOP_S
+        return None, None, True
 
     def judge(self, sc, fault, records, calls, hang, base_replies, out):
         mode = ("v1:" if sc["colang"] == "1.0" else "v2:") + sc["mode"]
@@ -94,7 +117,7 @@ class C17(RailsProp):
                 tail = (calls[pos].prompt if isinstance(calls[pos].prompt, str) else "").rstrip().split("\n")[-1].strip()
                 task = {"user intent:": "v2-intent", "bot intent:": "v2-continuation"}.get(tail, "v2-value" if tail.startswith("$") else "v2-other")
         if hang:
-            out.violate("hang", "%s:%s:%s" % (mode, self._task_at(sc, pos), name), "LLM reply %r (%s) at call position %d: generate did not return within %.0f s of wall-clock (no await reached)" % (text[:60], name, pos, SUBRUN_TIMEOUT_S), pin={"hostile": [list(fault)]})
+            out.violate("hang", "%s:%s:%s" % (mode, self._task_at(sc, pos), name), "LLM reply %r (%s) at call position %d: generate did not return (%s; the fault-free run needs %d)" % (text[:60], name, pos, getattr(self, "_hang_kind", "?"), getattr(self, "_base_work", 0)), pin={"hostile": [list(fault)]})
             return task
         evaluated = corpus.BY_NAME.get(name, (None, None))[1]
         for rec in records:
@@ -119,6 +142,8 @@ class C17(RailsProp):
         out = Outcome()
         tr = Trace(sc.get("run_seed"))
         mode = ("v1:" if sc["colang"] == "1.0" else "v2:") + sc["mode"]
+        self._base_work = 0
+        self._tight = 0
         records, calls, hang = self.run_one(sc, None, tr)
         out.evaluations = 1
         if hang or any(r.status != "ok" for r in records):
@@ -161,6 +186,8 @@ class C17(RailsProp):
             if lab == "v2-value":
                 out.probe("hostile_at_v2_value_generation")
             out.nontrivial_sigs.append((mode, lab, fault[1]))
+        for _ in range(self._tight):
+            out.probe("work_over_quarter_budget")
         out.digest = tr.digest()
         out.interleaving = (mode, tuple(self._base_tasks))
         out.sample = {"mode": mode, "turns": [t["text"] for t in sc["convs"][0]["turns"]], "llm_call_positions": self._base_tasks, "faults_executed": len(faults),
